@@ -182,7 +182,7 @@ func runC06(w *W) {
 	w.eachValidDoc(scale, judge)
 	w.eachNDInput(scale, judge)
 	docs := w.seedDocs(700<<10, 100, 20)
-	per := 30
+	per := 80
 	if th {
 		per = 600
 	}
@@ -192,7 +192,7 @@ func runC06(w *W) {
 		}
 		return per
 	}, judge)
-	nr := 200000
+	nr := 1000000
 	if th {
 		nr = 20000000
 	}
